@@ -208,6 +208,18 @@ def cases(ctx, tier):
                 a0 = a % Bk; a2 = a >> (128 * k); a1 = (a0 + a2 + rng.choice([-1, 0, 1])) % Bk
                 a = a0 + (a1 << (64 * k)) + (a2 << (128 * k))
             out.append(('mpn_toom3_points %x %s %s' % (n, hx(a), hx(b)), 'toom3-points'))
+    # mpn_toom4_mul_n called directly: the operands of its seven recursive products and the product against the Toom-4 model
+    for n in ([148, 149, 150, 151, 173, 200] if quick else list(range(148, 380, 6))):
+        for shape in (['uniform', 'ones', 'runs'] if quick else ['uniform', 'ones', 'runs', 'top1', 'lowzero', 'sparse']):
+            a = limbs_value(rng, n, shape); b = limbs_value(rng, n, rng.choice([shape, 'uniform']))
+            out.append(('mpn_toom4_points %x %s %s' % (n, hx(a), hx(b)), 'toom4-points'))
+    # sliced schoolbook path of mpn_mul: un above MUL_BASECASE_MAX_UN = 500, vn below the Karatsuba threshold
+    for un in ([501, 503] if quick else [501, 502, 750, 1000, 1001, 1003]):      # the value-level model divides 30 000-bit numbers: slow
+        for vn in ((1, max(1, T.get('MUL_KARATSUBA_THRESHOLD', 17) - 1)) if quick else (1, 2, 3, max(1, T.get('MUL_KARATSUBA_THRESHOLD', 17) - 1))):
+            u = limbs_value(rng, un, rng.choice(['ones', 'uniform', 'runs'])); v = limbs_value(rng, vn, rng.choice(['ones', 'uniform']))
+            if rng.random() < 0.5:      # low limb of every piece B-2: the add-back of the saved triangle carries every time
+                for j in range(0, un, 500): u &= ~(1 << (64 * j))
+            out.append(('mpn_mul_sliced %x %s %x %s' % (un, hx(u), vn, hx(v)), 'mul-sliced'))
     # single-bit / sparse operands at FFT sizes: pointwise products hit the residue 2^(nw) = -1
     for _ in range(24 if quick else 300):
         a = rng.randrange(F, F + 600); b = rng.choice([a, a, rng.randrange(min(a, max(F // 3 + 1, 2 * F - a + 1)), a + 1)])
